@@ -4,7 +4,7 @@ import os
 from .. import core
 
 DEVS = ["D_KeepParams", "D_KeepData", "D_KeepErrors", "D_KeepIndex", "D_KeepWriter", "D_KeepResp", "D_KeepReq"]
-MUTS = {"set", "params", "error", "abort", "write", "resp", "req", "hijack", "query", "delegate", "sethandlers", "renderfail", "allowed"}
+MUTS = {"set", "params", "error", "abort", "write", "resp", "req", "hijack", "query", "delegate", "sethandlers", "renderfail", "allowed", "datawrite"}
 
 
 BASIC = {"set", "params", "error", "abort", "write", "resp", "req"}
